@@ -11,7 +11,7 @@ NoFlag == [p |-> FALSE, hasMsg |-> FALSE, msg |-> <<>>]
 B(min, max, hm) == [p |-> TRUE, min |-> min, max |-> max, hasMsg |-> hm, msg |-> IF hm THEN <<"a", "sp", "b">> ELSE <<>>]
 F(hm) == [p |-> TRUE, hasMsg |-> hm, msg |-> IF hm THEN <<"a", "sp", "b">> ELSE <<>>]
 
-Lits == {"n5", "n0", "nneg5", "nhalf", "n1e3", "nbig", "n10_5"}
+Lits == {"n5", "n0", "nneg5", "nhalf", "n1e3", "nbig", "n10_5", "nhuge", "nneghuge", "n1e20int"}
 Opt(S) == S \cup {"none"}
 TypeClasses == {"string", "number", "vec", "optstring", "optnumber"}
 
